@@ -162,6 +162,17 @@ theorem gen_intoiter_drop (c : Cfg) (he : c.esz ≠ 0) (xs : List Elem) (rest : 
   rw [gen_intoiter_drop_loop c he xs rest l cp (hi - lo) lo hi USIZE w (by omega) hhi (by omega)]
   cases (dropEach c ((xs.drop lo).take (hi - lo)) w).2 <;> simp [bindW, dropView]
 
+/-- `IntoIter::size_hint`: exactly what is left, `(hi - lo, Some(hi - lo))`, for sized and for zero-sized elements (where the two
+"pointers" are counters and the difference is a wrapping subtraction); the fields do not change -/
+theorem gen_intoiter_size_hint (c : Cfg) (lo hi : Nat) (hle : lo ≤ hi) (hU : hi < USIZE) :
+    Gen.Fn.intoiter_size_hint c lo hi = .ok ((hi - lo, some (hi - lo)), lo, hi) := by
+  unfold Gen.Fn.intoiter_size_hint Gen.Fn.intoiter_size_hint.k_1
+  by_cases he : (c.esz == 0) = true
+  · simp only [he, if_true, wsub_of_le hle hU]
+  · simp only [he, if_false, hle, if_true, Bool.false_eq_true]
+
+#print axioms gen_intoiter_size_hint
+
 #print axioms gen_vec_into_iter
 #print axioms gen_intoiter_next
 #print axioms gen_intoiter_next_back
